@@ -295,7 +295,7 @@ def run(R):
 RFP = "ant_networking::replication_fetcher::ReplicationFetcher::"
 
 
-def liveness_rules(R):
+def liveness_rules(R, pfx="C08", only=None):
     """Clauses about fetches *leaving* the in-flight set and holders being reported:
     (a) an in-flight entry's deadline is fixed when the entry is created — nothing hands out `&mut` access to stored values of
         on_going_fetches (get_mut / iter_mut / values_mut / OccupiedEntry::get_mut), so a re-advertisement cannot keep a dead
@@ -321,12 +321,12 @@ def liveness_rules(R):
                 if nc.endswith(("::get_mut", "::iter_mut", "::values_mut", "::get_many_mut", "::drain", "::extract_if")):
                     bad.append((b, c))
     for b, c in bad:
-        R.viol("C08.deadline.fixed", "deadline-writable:%s" % R.root_path(b).split("::")[-1], "%s obtains mutable access to stored in-flight entries (%s): a fetch's deadline can be pushed back" % (R.root_path(b), c["ncallee"].split("::")[-1]), b, c["line"])
+        R.viol(pfx + ".deadline.fixed", "deadline-writable:%s" % R.root_path(b).split("::")[-1], "%s obtains mutable access to stored in-flight entries (%s): a fetch's deadline can be pushed back" % (R.root_path(b), c["ncallee"].split("::")[-1]), b, c["line"])
     if n < 6:
-        R.viol("C08.deadline.fixed", "anchor-missing:on_going_fetches", "fewer than 6 uses of the in-flight map found (%d)" % n)
-    R.inst("C08.deadline.fixed", "K2 mutator whitelist", "no &mut access to stored in-flight entries: a deadline is fixed at insertion", n, not bad and n >= 6)
+        R.viol(pfx + ".deadline.fixed", "anchor-missing:on_going_fetches", "fewer than 6 uses of the in-flight map found (%d)" % n)
+    R.inst(pfx + ".deadline.fixed", "K2 mutator whitelist", "no &mut access to stored in-flight entries: a deadline is fixed at insertion", n, not bad and n >= 6)
     # (b)
-    pr = R.body("C08.expiry.all", RFP + "prune_expired_keys_and_slow_nodes")
+    pr = R.body(pfx + ".expiry.all", RFP + "prune_expired_keys_and_slow_nodes")
     if pr is not None:
         prep(pr)
         fh = set(locals_of_type(pr, "alloc::collections::btree::set::BTreeSet<libp2p_identity::peer_id::PeerId>", exact=True))
@@ -335,12 +335,12 @@ def liveness_rules(R):
                and (blk["term"]["ncallee"] or "").endswith(("::retain", "::remove", "::clear", "::take", "::pop_first", "::pop_last", "::split_off", "::drain", "::extract_if"))]
         ok = bool(fh) and not shr
         for blk in shr[:1]:
-            R.viol("C08.expiry.all", "holder-exempted", "prune_expired_keys_and_slow_nodes removes holders from the failed set before reporting them (%s)" % blk["term"]["ncallee"].split("::")[-1], pr, blk["term"]["l"])
+            R.viol(pfx + ".expiry.all", "holder-exempted", "prune_expired_keys_and_slow_nodes removes holders from the failed set before reporting them (%s)" % blk["term"]["ncallee"].split("::")[-1], pr, blk["term"]["l"])
         if not fh:
-            R.viol("C08.expiry.all", "anchor-missing:failed_holders", "no BTreeSet<PeerId> of failed holders in prune_expired_keys_and_slow_nodes", pr, pr.lines[0])
-        R.inst("C08.expiry.all", "K2 mutator whitelist", "every holder of a timed-out fetch stays in the reported set", len(fh), ok)
+            R.viol(pfx + ".expiry.all", "anchor-missing:failed_holders", "no BTreeSet<PeerId> of failed holders in prune_expired_keys_and_slow_nodes", pr, pr.lines[0])
+        R.inst(pfx + ".expiry.all", "K2 mutator whitelist", "every holder of a timed-out fetch stays in the reported set", len(fh), ok)
     # (c)
-    sr = R.body("C08.range.set", RFP + "set_replication_distance_range")
+    sr = R.body(pfx + ".range.set", RFP + "set_replication_distance_range")
     if sr is not None:
         prep(sr)
         calls = [c["ncallee"] for c in sr.calls if not c.get("mac") and not any(t in (c["ncallee"] or "") for t in ("convert::From", "convert::Into", "clone::Clone", "option::Option::Some"))]
@@ -357,10 +357,10 @@ def liveness_rules(R):
             return rv["k"] == "use" and op_local(rv["a"]) in Taint(sr, extra_transparent=["core::option::Option::Some"]).closure(param)
         okc = bool(ws) and not calls and all(_is_some_of_param(st) for st in ws)
         if not okc:
-            R.viol("C08.range.set", "range-not-stored", "set_replication_distance_range does not store exactly the range it is given (%s)" % (calls[:2] or "assignment changed"), sr, sr.lines[0])
-        R.inst("C08.range.set", "K6 flows-to", "distance_range = Some(the new range)", len(ws), okc)
+            R.viol(pfx + ".range.set", "range-not-stored", "set_replication_distance_range does not store exactly the range it is given (%s)" % (calls[:2] or "assignment changed"), sr, sr.lines[0])
+        R.inst(pfx + ".range.set", "K6 flows-to", "distance_range = Some(the new range)", len(ws), okc)
     # (d0) the immediate-fetch shortcut of add_keys (which skips the range filter) applies to a list that reduced to exactly one new key
-    ak0 = R.body("C08.admit.single", RFP + "add_keys")
+    ak0 = R.body(pfx + ".admit.single", RFP + "add_keys")
     if ak0 is not None:
         lens_ = lambda b: Taint(b).closure({blk["term"]["d"][0] for blk in b.blocks if blk["term"]["k"] == "call" and (blk["term"]["ncallee"] or "").endswith("Vec::len")})
         one = _ConstCmp(F, lens_, lambda v: v == 1, ("Eq",), "new_incoming_keys.len() == 1")
@@ -368,15 +368,22 @@ def liveness_rules(R):
         _vac = CallSink("*VacantEntry<'a, K, V, A>::insert", "*VacantEntry::insert", "std::collections::hash::map::VacantEntry::insert")
         _ins = on_field([HM + "insert"], "on_going_fetches")
         from rules import BlockSink as _BSink
-        R.gate("C08.admit.single", ak0, _BSink(lambda b: sorted(set(_vac.blocks(b)) | set(_ins(b))), "insertion into on_going_fetches"), [[one]],
+        R.gate(pfx + ".admit.single", ak0, _BSink(lambda b: sorted(set(_vac.blocks(b)) | set(_ins(b))), "insertion into on_going_fetches"), [[one]],
                descr="add_keys starts a fetch directly (without the range filter) only for a single new key")
+    # (c2) the report of failed holders is delivered: the task that send_event spawns reaches `event_sender.send(event)` on every
+    #      path (no "channel is full → drop" exit), and the fetcher does not use try_send
+    for c in [c for c in F.item(RFP + "send_event") if c.kind == "closure" and c.coroutine][:1]:
+        R.reaches_except(pfx + ".report.delivered", c, CallSink("tokio::sync::mpsc::bounded::Sender::send", "tokio::sync::mpsc::Sender::send"), [],
+                         "ReplicationFetcher::send_event hands every event to the channel (awaiting capacity), never drops it", key="event-dropped")
+    if not [c for c in F.item(RFP + "send_event") if c.kind == "closure" and c.coroutine]:
+        R.viol(pfx + ".report.delivered", "anchor-missing:send_event-task", "ReplicationFetcher::send_event no longer spawns a sending task")
     # (d)
-    ak = R.body("C08.admit.prune", RFP + "add_keys")
+    ak = R.body(pfx + ".admit.prune", RFP + "add_keys")
     if ak is not None:
-        R.must_pass("C08.admit.prune", ak, [("remove_stored_keys(locally_stored_keys)", CallSink(RFP + "remove_stored_keys"))],
+        R.must_pass(pfx + ".admit.prune", ak, [("remove_stored_keys(locally_stored_keys)", CallSink(RFP + "remove_stored_keys"))],
                     descr="add_keys drops queued entries of records now held, on every path")
     # (e)
-    hlc = R.body("C08.wiring.dispatch", "ant_networking::cmd::<impl ant_networking::driver::SwarmDriver>::handle_local_cmd")
+    hlc = R.body(pfx + ".wiring.dispatch", "ant_networking::cmd::<impl ant_networking::driver::SwarmDriver>::handle_local_cmd")
     if hlc is not None:
         prep(hlc)
         g = cfg_of(hlc)
@@ -393,9 +400,16 @@ def liveness_rules(R):
             nxt = tuple(d for d, _ in g.succ[blk["id"]])
             if rets & g.reach(nxt, avoid=send, cut=acc_):
                 oke = False
-                R.viol("C08.wiring.dispatch", "keys-not-dispatched", "handle_local_cmd can return after notify_about_new_put scheduled fetches without dispatching them (KeysToFetchForReplication): "
+                R.viol(pfx + ".wiring.dispatch", "keys-not-dispatched", "handle_local_cmd can return after notify_about_new_put scheduled fetches without dispatching them (KeysToFetchForReplication): "
                        "the entries sit in the in-flight set until they time out and their holders are blamed", hlc, blk["term"]["l"])
-        R.inst("C08.wiring.dispatch", "K5 must-follow", "fetches scheduled by notify_about_new_put are always dispatched", len(notif), oke)
+        R.inst(pfx + ".wiring.dispatch", "K5 must-follow", "fetches scheduled by notify_about_new_put are always dispatched", len(notif), oke)
+        # the full-node bound is installed before the follow-up batch is chosen: set_farthest_on_full never comes after notify_about_new_put
+        sf = set(CallSink(RFP + "set_farthest_on_full").blocks(hlc))
+        okb = bool(sf) and bool(notif) and not (sf & g.reach(tuple(b_["id"] for b_ in notif)))
+        if not okb:
+            R.viol(pfx + ".wiring.bound-first", "batch-before-bound", "handle_local_cmd schedules the follow-up fetches (notify_about_new_put) before installing the full-node bound (set_farthest_on_full): "
+                   "records farther than the farthest held one are fetched after the node is full", hlc, hlc.lines[0])
+        R.inst(pfx + ".wiring.bound-first", "K5 must-precede", "set_farthest_on_full precedes notify_about_new_put in the PutLocalRecord arm", len(sf), okb)
 
 
 def _kt(body, c):
